@@ -393,6 +393,20 @@ def macro_dump(defines, std):
     return sorted(set(names))
 
 
+# the ways a user can define TROMPELOEIL_LONG_MACROS (the headers test it with #ifndef, so every one of them counts):
+# -DTROMPELOEIL_LONG_MACROS (value 1), an empty definition (`#define TROMPELOEIL_LONG_MACROS` in the source), value 0
+LONG_FORMS = ['TROMPELOEIL_LONG_MACROS', 'TROMPELOEIL_LONG_MACROS=', 'TROMPELOEIL_LONG_MACROS=0']
+
+
+def long_macro_dump(std):
+    """-> (names defined under any form of the definition, {name: first form under which it is defined})"""
+    where = {}
+    for form in LONG_FORMS:
+        for n in macro_dump([form], std):
+            where.setdefault(n, form)
+    return sorted(where), where
+
+
 CLAUSE_MACROS = ['TROMPELOEIL_WITH_', 'TROMPELOEIL_SIDE_EFFECT_', 'TROMPELOEIL_RETURN_', 'TROMPELOEIL_THROW_',
                  'TROMPELOEIL_CO_RETURN_', 'TROMPELOEIL_CO_THROW_', 'TROMPELOEIL_CO_YIELD_']
 
@@ -414,12 +428,12 @@ def gen_macros(path):
     lines = ['/- GENERATED by tools/translate.py from /repo — do not edit. -/', '', 'namespace Tromp.Gen', '']
     # (a) macro names defined by the headers with TROMPELOEIL_LONG_MACROS, per language level
     for std in ('c++14', 'c++17', 'c++20'):
-        names = macro_dump(['TROMPELOEIL_LONG_MACROS'], std)
+        names = long_macro_dump(std)[0]
         lines.append('def longMacros_%s : List String := [' % std.replace('+', 'p'))
         lines.append('  ' + ', '.join(lean_string(n) for n in names))
         lines.append(']')
         lines.append('')
-    allnames = sorted(set(sum((macro_dump(['TROMPELOEIL_LONG_MACROS'], std) for std in ('c++14', 'c++17', 'c++20')), [])))
+    allnames = sorted(set(sum((long_macro_dump(std)[0] for std in ('c++14', 'c++17', 'c++20')), [])))
     lines.append('/-- union over the three language levels. -/')
     lines.append('def longMacros_all : List String := [')
     lines.append('  ' + ', '.join(lean_string(n) for n in allnames))
